@@ -6,6 +6,7 @@ package main
 import (
 	"fmt"
 	"go/types"
+	"sort"
 	"strings"
 	"unicode"
 
@@ -110,46 +111,145 @@ func (e *Engine) newError(st *State, msg *Term) Value {
 	return &IfaceV{Alts: []IAlt{{G: TrueT, T: types.NewPointer(named), V: &PtrV{Alts: []PAlt{{G: TrueT, O: o}}}}}}
 }
 
+type iteLeaf struct {
+	G *Term
+	V *Term
+}
+
+var leavesMemo = map[int]map[*Term]*Term{}
+
+// leavesOf expands a term that is an ite-DAG over constants into constant -> guard (memoised, so
+// shared sub-DAGs are visited once and equal constants are coalesced).
+func leavesOf(t *Term) map[*Term]*Term {
+	if m, ok := leavesMemo[t.id]; ok {
+		return m
+	}
+	var m map[*Term]*Term
+	switch {
+	case t.IsConst:
+		m = map[*Term]*Term{t: TrueT}
+	case t.Op == "ite":
+		la, lb := leavesOf(t.Args[1]), leavesOf(t.Args[2])
+		if la != nil && lb != nil {
+			m = map[*Term]*Term{}
+			for v, g := range la {
+				m[v] = And(t.Args[0], g)
+			}
+			nc := Not(t.Args[0])
+			for v, g := range lb {
+				if prev, ok := m[v]; ok {
+					m[v] = Or(prev, And(nc, g))
+				} else {
+					m[v] = And(nc, g)
+				}
+			}
+			if len(m) > 64 {
+				m = nil
+			}
+		}
+	}
+	leavesMemo[t.id] = m
+	return m
+}
+
+// iteLeaves lists the guarded constant values of t in a deterministic order.
+func iteLeaves(t *Term, g *Term, out *[]iteLeaf, limit int) bool {
+	m := leavesOf(t)
+	if m == nil || len(m) > limit {
+		return false
+	}
+	keys := make([]*Term, 0, len(m))
+	for v := range m {
+		keys = append(keys, v)
+	}
+	sort.Slice(keys, func(i, j int) bool { return keys[i].id < keys[j].id })
+	for _, v := range keys {
+		*out = append(*out, iteLeaf{And(g, m[v]), v})
+	}
+	return true
+}
+
 func (e *Engine) sprintf(format Value, va Value, st *State) *Term {
 	f, ok := format.(*Term)
 	if ok && f.IsConst {
 		sl := va.(*SliceV)
 		if sl.Len.IsConst {
 			cells := sliceCells(st, sl)
-			var goargs []interface{}
+			// every argument: a list of guarded constant values
+			var argLeaves [][]iteLeaf
+			var argTypes []types.Type
 			conc := true
-			for i := 0; i < int(sl.Len.BV); i++ {
+			for i := 0; i < int(sl.Len.BV) && conc; i++ {
 				iv, ok := cells[i].(*IfaceV)
 				if !ok || len(iv.Alts) != 1 || iv.Alts[0].T == nil {
 					conc = false
 					break
 				}
 				t, ok := iv.Alts[0].V.(*Term)
-				if !ok || !t.IsConst {
+				if !ok {
 					conc = false
 					break
 				}
-				switch t.K {
-				case KStr:
-					goargs = append(goargs, t.S)
-				case KBool:
-					goargs = append(goargs, t.B)
-				case KBV:
-					signed := true
-					if b, ok := iv.Alts[0].T.Underlying().(*types.Basic); ok {
-						_, signed = bvWidth(b)
-					}
-					if signed {
-						goargs = append(goargs, sext(t.BV, t.W))
-					} else {
-						goargs = append(goargs, t.BV)
-					}
-				default:
+				var ls []iteLeaf
+				if !iteLeaves(t, TrueT, &ls, 48) {
 					conc = false
+					break
 				}
+				argLeaves = append(argLeaves, ls)
+				argTypes = append(argTypes, iv.Alts[0].T)
 			}
 			if conc {
-				return StrC(fmt.Sprintf(f.S, goargs...))
+				goVal := func(t *Term, ty types.Type) interface{} {
+					switch t.K {
+					case KStr:
+						return t.S
+					case KBool:
+						return t.B
+					case KBV:
+						signed := true
+						if b, ok := ty.Underlying().(*types.Basic); ok {
+							_, signed = bvWidth(b)
+						}
+						if signed {
+							return sext(t.BV, t.W)
+						}
+						return t.BV
+					}
+					return nil
+				}
+				total := 1
+				for _, ls := range argLeaves {
+					total *= len(ls)
+				}
+				if total <= 256 {
+					var res *Term
+					idx := make([]int, len(argLeaves))
+					for n := 0; n < total; n++ {
+						g := TrueT
+						goargs := make([]interface{}, len(argLeaves))
+						for i, ls := range argLeaves {
+							g = And(g, ls[idx[i]].G)
+							goargs[i] = goVal(ls[idx[i]].V, argTypes[i])
+						}
+						v := StrC(fmt.Sprintf(f.S, goargs...))
+						if res == nil {
+							res = v
+						} else {
+							res = Ite(g, v, res)
+						}
+						for i := range idx {
+							idx[i]++
+							if idx[i] < len(argLeaves[i]) {
+								break
+							}
+							idx[i] = 0
+						}
+					}
+					if res == nil {
+						res = StrC(fmt.Sprintf(f.S))
+					}
+					return res
+				}
 			}
 		}
 	}
@@ -182,7 +282,7 @@ func (e *Engine) vrtIntrinsic(fn *ssa.Function, vn string, args []Value, st *Sta
 		return FPFromBV(e.nondet("f64", KBV, 64)), true
 	case "String":
 		e.needTruePC(st, "vrt.String")
-		if strTheory {
+		if strTheory && e.concrete == nil {
 			v := e.freshStr(st, "nd_str", e.strMax)
 			e.nondets = append(e.nondets, Nondet{Name: v.Name, Tag: "str", T: v, Max: -1})
 			return v, true
@@ -195,6 +295,9 @@ func (e *Engine) vrtIntrinsic(fn *ssa.Function, vn string, args []Value, st *Sta
 			panic(unsupported("vrt.Len bound must be constant"))
 		}
 		v := e.nondet("len", KBV, 64)
+		if v.IsConst {
+			return v, true
+		}
 		// the assumption is emitted before the bound annotation may be used
 		st.assumes = And(st.assumes, BVBin("<=", v, mx, false))
 		v.Max = int64(mx.BV)
